@@ -263,3 +263,25 @@ def sw_cfg(r, **over):
       if r.chance(0.15) else []
   cfg.update(over)
   return cfg
+
+
+def widen_vlan_args(steps, seed, p_plan=0.15):
+  """Post-pass with its own stream (the other draws of a plan stay what they
+  were): in some plans the arguments of set_vlan_vid / set_vlan_pcp also take
+  values wider than their field (vid above 12 bits, pcp above 3 bits).  The
+  action structs carry 16 and 8 bits; a switch keeps the field's bits (as
+  the reference switch does) -- it may not fail internally, nor let the
+  excess spill into the neighbouring PCP / CFI bits."""
+  r = Rng(mix(seed, "widevlan"))
+  if not r.chance(p_plan):
+    return 0
+  n = 0
+  for st in steps:
+    for a in st.get("acts") or ():
+      if a[0] == "set_vlan_vid" and r.chance(0.5):
+        a[1] = r.pick([0x1000, 0x1001, 0x1fff, 0x8064, 0xffff, 0xf007])
+        n += 1
+      elif a[0] == "set_vlan_pcp" and r.chance(0.5):
+        a[1] = r.pick([8, 9, 0x0f, 0x10, 0x80, 0xff])
+        n += 1
+  return n
